@@ -190,7 +190,11 @@ inductive NodeKind | file | dir | symlink
 /-- a directory tree as the list of its entries: relative name list ↦ kind -/
 abbrev Listing := List (List (List Char) × NodeKind)
 
-def keyOfNames (ns : List (List Char)) : Key := (ns.intersperse ['/']).flatten
+/-- the names joined by `/` (what `strip_prefix(&source_root)` leaves of an entry's path) -/
+def keyOfNames : List (List Char) → Key
+  | [] => []
+  | [n] => n
+  | n :: m :: rest => n ++ '/' :: keyOfNames (m :: rest)
 
 /-- `Data::try_list_contents`: every plain file at any depth; anything that is neither a file nor a
     directory (a symlink) is refused -/
